@@ -165,6 +165,7 @@ func TestC08(t *testing.T) {
 	r := mon.New("C08", "every built-in TLSExtension type (31 structs) x generated field values (lists of 1..n entries, boundary lengths): Len() vs bytes Read() writes into a canary-tailed buffer that is pre-filled with 0x00 / 0xFF / 0xA7 (the encoding must not depend on it), the same after the exported fields were changed following a first Len() call, header/inner length prefixes under the strict grammar, io.ErrShortBuffer on every shorter buffer (all sizes for n<=96, sampled above), and for writers Read(Write(body)) reproduces the bytes modulo the documented normalisations (independent normaliser). distinct = (type, encoded length) pairs")
 	defer r.Finish(t)
 	rounds := mon.Pick(3000, 300000)
+	rewrites := 0
 	typesSeen := map[string]int{}
 	for i := 0; i < rounds; i++ {
 		rg := Sub("C08", i)
@@ -303,6 +304,24 @@ func TestC08(t *testing.T) {
 				viol("reencode_empty", "re-encoding is empty", enc)
 				continue
 			}
+			// decoding the same body once more into the same object (an importer that reuses
+			// its extension objects) must not change what it encodes to: same size, and for
+			// types without regenerated material the same bytes
+			{
+				var werr2 error
+				pn2, pv2 := recoverPanic(func() { _, werr2 = w.Write(enc[4:]) })
+				if pn2 || werr2 != nil {
+					viol("second_write_fails", fmt.Sprintf("a second Write of the same body into the same object: panic=%v err=%v", pv2, werr2), enc)
+					continue
+				}
+				out2 := make([]byte, w.Len())
+				w.Read(out2)
+				if len(out2) != len(out) || (tn != "*tls.GREASEEncryptedClientHelloExtension" && tn != "*tls.KeyShareExtension" && !bytes.Equal(out2, out)) {
+					viol("second_write_changes_encoding", fmt.Sprintf("decoding the same body twice into one object changes its encoding: %d -> %d bytes", len(out), len(out2)), enc)
+					continue
+				}
+				rewrites++
+			}
 			if tn == "*tls.KeyShareExtension" {
 				// documented: non-GREASE key data is dropped (regenerated by ApplyPreset), so the
 				// re-encoding is not a complete key_share yet: compare the group sequence only
@@ -378,6 +397,8 @@ func TestC08(t *testing.T) {
 		r.Count("type_"+tn, int64(c))
 	}
 	r.Count("types_covered", int64(len(typesSeen)))
+	r.Count("second_writes_into_the_same_object", int64(rewrites))
+	r.Floor("second_writes_into_the_same_object", 1000)
 	r.Floor("types_covered", 31)
 }
 
